@@ -46,6 +46,8 @@ def gen_spec(rng, variant, tier):
     sp = {'type': rng.choice(spans.TYPES), 'n': n, 'origin': rng.choice([0, 1, 3, 7])}
     init = {nm: [rng.choice(DYADS) for _ in range(n)] for nm in endo + exo}
     spec = {'kind': 'scripted', 'endo': endo, 'exo': exo, 'check': check, 'lags': lags, 'leads': leads, 'span': sp, 'init': init}
+    if rng.random() < 0.15:
+        spec['strict'] = True
     if variant in ('solver', 'solver_faults') and rng.random() < 0.2:
         # the extension mixins must be transparent to the solver when their features are not used
         spec['mixins'] = rng.sample(['alias', 'tracer', 'pandas', 'progress'], rng.randint(1, 4))
@@ -380,6 +382,8 @@ def gen_parser_schedule(rng, idx, tier):
     sp = {'type': rng.choice(spans.TYPES), 'n': n, 'origin': rng.choice([0, 2, 5])}
     init = scripts.gen_data(rng, prog, n)
     spec = {'kind': 'parser', 'script': prog['script'], 'endo': prog['endo'], 'names': prog['names'], 'lags': lags, 'leads': leads, 'span': sp, 'init': init}
+    if rng.random() < 0.15:
+        spec['strict'] = True
     ops = []
     for _ in range(rng.choice([1, 2, 3])):
         opts = gen_opts(rng, True)
@@ -405,7 +409,10 @@ def gen_parser_schedule(rng, idx, tier):
 
 
 def _dtype_kw(spec):
-    return {'dtype': np.float32} if spec.get('dtype') == 'float32' else {'dtype': np.int64} if spec.get('dtype') == 'int64' else {}
+    kw = {'dtype': np.float32} if spec.get('dtype') == 'float32' else {'dtype': np.int64} if spec.get('dtype') == 'int64' else {}
+    if spec.get('strict'):
+        kw['strict'] = True  # strict mode guards attribute creation; solving creates none
+    return kw
 
 
 BIG = 2**53  # from here on float64 cannot tell neighbouring integers apart
@@ -451,7 +458,7 @@ def build(fsic, spec):
     cls = probes.make_probed(fsic, base)
     via = spec.get('init_via', 'dict')
     if via == 'dict':
-        m = probes.new_scripted_instance(cls, span, spec['init'])
+        m = probes.new_scripted_instance(cls, span, spec['init'], **({'strict': True} if spec.get('strict') else {}))
     else:
         # through the constructor, as a user would: arrays the caller keeps hold of (and may pass for several variables)
         arrays = {nm: np.array([probes.fval(v) for v in vals], dtype=float) for nm, vals in spec['init'].items()}
